@@ -176,7 +176,12 @@ def reference(mods):
     top = run("pkg")
     if top is None:
         return None
+    ALL_OF.clear()
+    ALL_OF.update({("pkg" if m == "pkg" else f"pkg.{m}"): list(d["__all__"]) for m, d in ns.items() if d is not None and "__all__" in d})
     return {n: v for n, v in top.items() if n != "__all__" and not isinstance(v, tuple)}
+
+
+ALL_OF: dict = {}  # module path -> CPython's __all__ of the last package passed to reference()
 
 
 def griffe_namespace(mods):
@@ -254,9 +259,12 @@ def _replay(**a):
                 Path(d, "pkg", "__init__.py" if mod == "pkg" else f"{mod}.py").write_text(to_source(stmts))
         code = ("import json, sys, inspect\nsys.path.insert(0, %r)\ntry:\n    import pkg\nexcept Exception as e:\n    print(json.dumps({'error': repr(e)})); raise SystemExit\n"
                 "out = {}\nSKIP = {'__name__', '__doc__', '__package__', '__loader__', '__spec__', '__path__', '__file__', '__cached__', '__builtins__', '__all__'}\nfor n, v in vars(pkg).items():\n    if n in SKIP or inspect.ismodule(v): continue\n"
-                "    out[n] = (v.__module__ + '.' + v.__qualname__) if hasattr(v, '__qualname__') else None\nprint(json.dumps(out))\n") % d
+                "    out[n] = (v.__module__ + '.' + v.__qualname__) if hasattr(v, '__qualname__') else None\n"
+                "alls = {m: list(sys.modules[m].__all__) for m in ('pkg', 'pkg.s', 'pkg.t') if m in sys.modules and hasattr(sys.modules[m], '__all__')}\n"
+                "out['__alls__'] = alls\nprint(json.dumps(out))\n") % d
         r = subprocess.run([sys.executable, "-c", code], capture_output=True, text=True, timeout=60, env={"PYTHONDONTWRITEBYTECODE": "1"})
         real = json.loads(r.stdout.strip().splitlines()[-1])
+        real_alls = real.pop("__alls__", {}) if isinstance(real, dict) else {}
         if "error" in real:
             if want is not None:
                 raise HarnessDefect(f"reference accepts a package CPython rejects: {real['error']}\n{ {m: to_source(s) for m, s in mods.items() if s} }")
@@ -275,6 +283,12 @@ def _replay(**a):
         got = observed(pkg)
         if got != want:
             return True, f"griffe.load from disk: {got}; CPython: {want}; sources: { {m: to_source(s) for m, s in mods.items() if s} }"
+        if {k: set(v) for k, v in real_alls.items()} != {k: set(v) for k, v in ALL_OF.items()}:
+            raise HarnessDefect(f"reference __all__ {ALL_OF} differs from CPython's {real_alls}")
+        for mpath, names in real_alls.items():
+            ex = (pkg if mpath == "pkg" else pkg[mpath.split(".", 1)[1]]).exports
+            if ex is None or any(not isinstance(x, str) for x in ex) or set(ex) != set(names):
+                return True, f"griffe.load from disk: {mpath}.exports = {[str(x) for x in (ex or [])]}; CPython's __all__: {names}; sources: { {m: to_source(s) for m, s in mods.items() if s} }"
         return False, "griffe.load agrees with CPython"
     finally:
         shutil.rmtree(d, ignore_errors=True)
@@ -322,6 +336,13 @@ def package_namespace(s_all: bool, local_kind: str, explicit: str, chain: bool, 
     got = observed(pkg)
     if got != want:
         return fail(f"visible names/definitions {got}; CPython: {want}; package: { {m: s for m, s in mods.items() if s} }")
+    # Module.exports == CPython's __all__ (as a set of strings: nothing left unexpanded, nothing lost), for every module that declares one
+    for mpath, names in dict(ALL_OF).items():
+        mod_obj = pkg if mpath == "pkg" else pkg.members[mpath.split(".", 1)[1]]
+        ex = mod_obj.exports
+        if ex is None or any(not isinstance(x, str) for x in ex) or set(ex) != set(names):
+            return fail(f"{mpath}.__all__ is {names} for CPython, griffe's exports are {[x if isinstance(x, str) else '<unexpanded ' + str(x) + '>' for x in (ex or [])]}; package: { {m: s for m, s in mods.items() if s} }")
+        cover("exports-checked")
     # a resolved alias presents its target; member paths are rebased under the alias's own path
     for name, mem in pkg.members.items():
         if mem.is_alias and not mem.final_target.is_module:
